@@ -7,6 +7,8 @@ let n_of_int n = if n = 0 then N0 else Npos (pos_of_int n)
 let rec int_of_pos = function XH -> 1 | XO p -> 2 * int_of_pos p | XI p -> 2 * int_of_pos p + 1
 let int_of_n = function N0 -> 0 | Npos p -> int_of_pos p
 
+let z_of_int n = if n = 0 then Z0 else if n > 0 then Zpos (pos_of_int n) else Zneg (pos_of_int (-n))
+let rec nat_of_int n = if n <= 0 then O else S (nat_of_int (n - 1))
 let bytes_of_string s = List.init (String.length s) (fun i -> n_of_int (Char.code s.[i]))
 let hexval c = match c with '0'..'9' -> Char.code c - 48 | 'a'..'f' -> Char.code c - 87 | _ -> failwith "hex"
 let bytes_of_hex s =
@@ -20,6 +22,19 @@ let () =
       let line = input_line stdin in
       match String.split_on_char ' ' (String.trim line) with
       | [] | [""] -> print_endline ""
+      | "queue" :: cap :: ops ->
+        (* op tokens: w<k>:<hex> | b<k>:<n> | r<k> | e *)
+        let parse t =
+          let n = String.length t in
+          match t.[0] with
+          | 'e' -> OpEndRead
+          | 'r' -> OpRead (nat_of_int (int_of_string (String.sub t 1 (n - 1))))
+          | c ->
+            let i = String.index t ':' in
+            let k = nat_of_int (int_of_string (String.sub t 1 (i - 1))) in
+            let rest = String.sub t (i + 1) (n - i - 1) in
+            if c = 'w' then OpWrite (k, bytes_of_hex rest) else OpBegin (k, z_of_int (int_of_string rest)) in
+        print_endline (string_of_bytes (api_queue (z_of_int (int_of_string cap)) (List.map parse ops)))
       | mode :: args ->
         let r = api (bytes_of_string mode) (List.map bytes_of_hex args) in
         print_endline (string_of_bytes r)
